@@ -305,8 +305,8 @@ func redirectModel(rules []c49Rule, host, target string) (redirect bool, status 
 					break
 				}
 			}
-			if !found || location == "" {
-				open = true // no such query: not documented
+			if !found || !(strings.HasPrefix(location, "http://") || strings.HasPrefix(location, "https://")) {
+				open = true // no such query / value is not an absolute URL: not documented
 			}
 		case "URL_PREFIX_ADD": // "Redirect to URL concatenated by specified prefix and the original URL"
 			location = a.Params[0] + target
